@@ -2148,6 +2148,9 @@ def add_declarations(parent, node):
         return
     if not node["declarations"]:
         return
+    if not isinstance(node["declarations"], list):
+        raise RuntimeError("declarations must be a list around line {}".format(
+            node.get("__line__", "?")))
 
     for subnode in node["declarations"]:
         if "block" in subnode:
